@@ -60,7 +60,7 @@ type Task struct {
 	Poison     bool
 	exiting    bool
 	stallFor   time.Duration // set by the scheduler: sleep this long (fake time) before proceeding
-	noYield    int // >0: scheduling points are skipped (harness observation must not add interleavings)
+	noYield    int           // >0: scheduling points are skipped (harness observation must not add interleavings)
 	PanicVal   any
 	PanicStack string
 	StartStep  int
@@ -107,8 +107,8 @@ type Config struct {
 	RandMode  int     // 0 uniform, 1 adversarial extremes
 	MaxSteps  int
 	Replay    []Decision
-	Grace     time.Duration // fake time to keep scheduling after the last client finished
-	Horizon   time.Duration // fake time after which a blocked system is a stall
+	Grace     time.Duration  // fake time to keep scheduling after the last client finished
+	Horizon   time.Duration  // fake time after which a blocked system is a stall
 	StepHook  func(step int) // called by the scheduler before each decision (fault-point sweeps); runs in scheduler context
 	CheckGoid bool
 	StallP    float64         // probability that a picked task is stalled (slow or descheduled goroutine) before it proceeds
@@ -128,8 +128,8 @@ type Outcome struct {
 	Trace          []TraceEntry
 	TraceHash      uint64
 	Foreign        int
-	Stalls         int // injected stalls
-	TaskOverflow   bool // more tasks than the simulator tracks: the run is abandoned
+	Stalls         int       // injected stalls
+	TaskOverflow   bool      // more tasks than the simulator tracks: the run is abandoned
 	Quiescent      time.Time // first instant at which every task had exited
 	End            time.Time
 	ClientsEnd     time.Time
@@ -143,43 +143,43 @@ type TraceEntry struct {
 }
 
 type Sim struct {
-	cfg    Config
-	mu     sync.Mutex
-	tasks  [MaxTasks]*Task
-	ntasks int
-	cur    *Task
-	arrive chan struct{}
-	step   int
-	rng    rng
-	dec    []Decision
-	rpos   int
-	out    Outcome
-	running bool
-	foreign bool
+	cfg         Config
+	mu          sync.Mutex
+	tasks       [MaxTasks]*Task
+	ntasks      int
+	cur         *Task
+	arrive      chan struct{}
+	step        int
+	rng         rng
+	dec         []Decision
+	rpos        int
+	out         Outcome
+	running     bool
+	foreign     bool
 	clientsLive int
 	quiesced    bool
 	heldLive    int
 	liveTasks   int
-	pctChange []int
-	lastPick  int
-	start     time.Time
-	syncAddr  int // address used for RaceReleaseMerge/RaceAcquire
-	timers    []*TimerRec
-	hash      uint64
-	keepTrace bool
-	onStep    func(step int)
+	pctChange   []int
+	lastPick    int
+	start       time.Time
+	syncAddr    int // address used for RaceReleaseMerge/RaceAcquire
+	timers      []*TimerRec
+	hash        uint64
+	keepTrace   bool
+	onStep      func(step int)
 }
 
 // TimerRec is a timer created by instrumented code.
 type TimerRec struct {
-	T       *time.Timer
-	Site    string
-	Task    int
-	Tag     int
-	Created time.Time
-	D       time.Duration
-	IsFunc  bool
-	Fired   bool // AfterFunc callbacks only
+	T                   *time.Timer
+	Site                string
+	Task                int
+	Tag                 int
+	Created             time.Time
+	D                   time.Duration
+	IsFunc              bool
+	Fired               bool          // AfterFunc callbacks only
 	PendingAtQuiescence bool          // still armed when every task had exited: nobody waits for it any more
 	Remaining           time.Duration // time left then
 }
